@@ -5,6 +5,7 @@ from __future__ import annotations
 import ast
 import re
 
+from vlib.flow import parent_map
 from vlib.core import AnalysisError, Report
 from vlib.grammar import GrammarModel
 from vlib.nodemodel import NodeModel
@@ -343,15 +344,74 @@ def rule_d(rep: Report, idx: SourceIndex) -> None:
 				clash = [g.name for g, p2, _, _ in sites if g.name != f.name and p2 is not None and (p2.startswith(prefix) or prefix.startswith(p2))]
 				# every parameter of the method (besides self/cls) must be interpolated into the key
 				params = [p for p in f.params() if p not in ('self', 'cls')]
-				used = {x.id for x in ast.walk(k) if isinstance(x, ast.Name)}
-				missing = [p for p in params if p not in used]
+				# interpolated as it is, or through an injective view (id(p), str(p), p.origin); a parameter that only occurs inside a derived value
+				# (`EntryPath(via).shift(-1)`) is keyed only if the method reads the parameter through that same value
+				used = set()
+				for fv in ast.walk(k):
+					if isinstance(fv, ast.FormattedValue):
+						v_ = fv.value
+						if isinstance(v_, ast.Call) and isinstance(v_.func, ast.Name) and v_.func.id in ('id', 'str', 'repr') and len(v_.args) == 1:
+							v_ = v_.args[0]
+						if isinstance(v_, ast.Attribute) and v_.attr == 'origin':
+							v_ = v_.value
+						if isinstance(v_, ast.Name):
+							used.add(v_.id)
+				missing = [p for p in params if p not in used and not _keyed_through_view(f, n, k, p)]
 				if clash:
 					r.violate(key, (rel, n.lineno), f'{cq}.{f.name} memoises under key `{unparse(k)}`, whose prefix {prefix!r} collides with the key of {clash}: whichever query runs first answers the other one too (results depend on query order)', unparse(n)[:120])
 				elif missing:
-					r.violate(key, (rel, n.lineno), f'{cq}.{f.name} memoises under key `{unparse(k)}`, which does not mention parameter(s) {missing}: the first call answers for every later argument value', unparse(n)[:120])
+					r.violate(key, (rel, n.lineno), f'{cq}.{f.name} memoises under key `{unparse(k)}`, which does not determine parameter(s) {missing} (not interpolated, or only through a derived value while the method also reads the parameter itself): the first call answers for every later argument value that shares the key', unparse(n)[:120])
 				else:
 					r.ok(key, (rel, n.lineno))
 	rep.extra_coverage['memo_sites'] = n_sites
+
+
+def _keyed_through_view(f, call: ast.Call, key: ast.AST, p: str) -> bool:
+	"""the key does not name parameter p, but interpolates a value V derived from p (`uplayer.origin` with uplayer = EntryPath(via).shift(-1)) and everything
+	the method computes from p outside `raise` statements goes through that same V: the key then still determines the result. `.origin` of an EntryPath
+	is its full text, an injective view."""
+	import copy
+	derived: dict[str, ast.AST] = {}
+	for st in f.node.body:
+		if isinstance(st, ast.Assign) and len(st.targets) == 1 and isinstance(st.targets[0], ast.Name):
+			names = {x.id for x in ast.walk(st.value) if isinstance(x, ast.Name)}
+			if p in names or names & set(derived):
+				derived[st.targets[0].id] = st.value
+
+	def expand(e: ast.AST, depth: int = 4) -> ast.AST:
+		class T(ast.NodeTransformer):
+			def visit_Name(self, node: ast.Name):
+				if node.id in derived and depth > 0:
+					return expand(derived[node.id], depth - 1)
+				return node
+		return T().visit(copy.deepcopy(e))
+	views = set()
+	for v in ast.walk(key):
+		if isinstance(v, ast.FormattedValue):
+			t = unparse(expand(v.value))
+			views.add(t)
+			if t.endswith('.origin'):
+				views.add(t[:-len('.origin')])
+	views = {t for t in views if p in t}
+	if not views:
+		return False
+	pm_ = parent_map(f.node)
+	skip_ids = {id(x) for x in ast.walk(key)} | {id(x) for st in f.node.body if isinstance(st, ast.Assign) and len(st.targets) == 1 and isinstance(st.targets[0], ast.Name) and st.targets[0].id in derived for x in ast.walk(st)}
+	for x in ast.walk(f.node):
+		if isinstance(x, ast.Raise):
+			skip_ids |= {id(y) for y in ast.walk(x)}
+	for x in ast.walk(f.node):
+		if not (isinstance(x, ast.Name) and isinstance(x.ctx, ast.Load) and (x.id == p or x.id in derived)) or id(x) in skip_ids:
+			continue
+		cur, ok = x, False
+		while cur is not None and isinstance(cur, ast.expr):
+			if unparse(expand(cur)) in views:
+				ok = True
+				break
+			cur = pm_.get(id(cur))
+		if not ok:
+			return False
+	return True
 
 
 def rule_e(rep: Report, idx: SourceIndex) -> None:
